@@ -64,6 +64,10 @@ PROPERTY RetLaws
 ENUM_CFG = "INIT Init\nNEXT EnumNext\n" + CONST + ENUM_CONST
 TRACE_CFG = "SPECIFICATION TraceSpec\n" + CONST + " HasRows = %(triples)s\n NBlk = %(nblk)d\nINVARIANT Verdict\n"
 NBLK = 64
+COVER_CFG = "SPECIFICATION CoverSpec\n" + CONST + "INVARIANT LawUpgradeCover\nINVARIANT LawTables\n"
+MAX_COVER_FEATURES = 16   # 2^16 subsets per upgrade function: the bound of ProblemKindLatticeTables
+MAX_COMPONENT_FEATURES = 6  # a derived universe is replayed on all pairs of kinds: 6 features = 168 kinds
+QUICK_COMPONENT_KINDS = 64  # quick tier: only the derived universes with at most this many kinds (all-pairs replay)
 
 OPNAMES = {1: "==", 2: "<=", 3: "union", 4: "intersection", 5: "a <= a.union(b)", 6: "b <= a.union(b)",
            7: "a.intersection(b) <= a", 8: "a.intersection(b) <= b", 9: "upgrade both, then <="}
@@ -105,6 +109,169 @@ def tables(U):
         up.append(row)
         upx.append(rowx)
     return {"nf": nf, "latest": latest, "added": added, "depr": depr, "up": up, "upx": upx, "names": U}
+
+
+def upgrade_profile():
+    """Which features do the REAL upgrade functions read, write or remove, and which of them meet in one rule
+    or one result?  Found by probing upgrade_functions_map (on the empty set, every single feature, every pair
+    of features, everything, everything but one feature).  Generator configuration only: it decides which
+    features the enumerated kinds are made of, never a verdict."""
+    import itertools
+
+    V = versioning()
+    from unified_planning.model.problem_kind import all_features
+
+    feats = sorted(all_features)
+    latest = V.LATEST_PROBLEM_KIND_VERSION
+    added = {f: V.FEATURES_VERSIONS.get(f, (1, None))[0] for f in feats}
+    sources, written, removed, links = set(), set(), set(), set()
+    calls = 0
+    for v in range(1, latest):
+        fn = V.upgrade_functions_map[(v, v + 1)]
+        av = [f for f in feats if added[f] <= v]
+        with time_limit(60):
+            base = fn(set())
+            single = {f: fn({f}) for f in av}
+            full = fn(set(av))
+            written |= base | (full - set(av))
+            for f in av:
+                if single[f] != base | {f} or fn(set(av) - {f}) - {f} != full - {f}:
+                    sources.add(f)
+                if f not in single[f]:
+                    removed.add(f)
+                written |= single[f] - {f}
+            for f, g in itertools.combinations(av, 2):
+                r = fn({f, g})
+                if r != single[f] | single[g]:  # a rule that needs both, or one that excludes the other
+                    sources |= {f, g}
+                    links.add((f, g))
+                    written |= r - {f, g}
+                elif ((single[f] - {f}) & (single[g] - {g})) - base:  # two rules that write the same feature
+                    links.add((f, g))
+            calls += 2 + 2 * len(av) + len(av) * (len(av) - 1) // 2
+    deprecated = {f for f in feats if V.FEATURES_VERSIONS.get(f, (1, None))[1] is not None}
+    return {"features": feats, "added": added, "latest": latest, "sources": sources, "written": written,
+            "removed": removed, "deprecated": deprecated, "links": links, "calls": calls}
+
+
+def upgrade_closure(prof, feats):
+    """Smallest superset of `feats` that no upgrade function leaves (every subset is tried, so that a
+    non-monotone function cannot hide a result)."""
+    V = versioning()
+    X = set(feats)
+    while True:
+        if len(X) > MAX_COVER_FEATURES:
+            return X
+        Y = set(X)
+        for v in range(1, prof["latest"]):
+            fn = V.upgrade_functions_map[(v, v + 1)]
+            av = sorted(f for f in X if prof["added"].get(f, 1) <= v)
+            with time_limit(60):
+                for m in range(2 ** len(av)):
+                    Y |= fn({av[i] for i in range(len(av)) if m >> i & 1})
+        Y &= set(prof["features"])  # a result that is no ProblemKind feature stays outside: UpOut counts it
+        if Y == X:
+            return X
+        X = Y
+
+
+def order_features(prof, feats):
+    return sorted(feats, key=lambda f: (prof["added"].get(f, 1), f))
+
+
+def derived_universes(prof):
+    """(cover universe, [interaction universes]).
+    Cover universe: every feature an upgrade function reads, writes or removes (+ every deprecated feature):
+    the whole upgrade tables, checked by ProblemKindLatticeUpgrade.
+    Interaction universes: the connected components of `links` (features that meet in one rule or in one
+    result), each closed under the upgrade functions: small enough for the all-pairs replay on real objects."""
+    cover = upgrade_closure(prof, prof["sources"] | prof["written"] | prof["removed"] | prof["deprecated"])
+    comp = {}
+    for f, g in sorted(prof["links"]):
+        a, b = comp.setdefault(f, {f}), comp.setdefault(g, {g})
+        if a is not b:
+            a |= b
+            for x in b:
+                comp[x] = a
+    comps = []
+    for c in sorted({tuple(sorted(c)) for c in comp.values()}):
+        U = upgrade_closure(prof, c)
+        if len(U) > MAX_COMPONENT_FEATURES:  # too many kinds for all pairs: one universe per linked pair instead
+            comps += [upgrade_closure(prof, p) for p in sorted(prof["links"]) if set(p) <= set(c)]
+        else:
+            comps.append(U)
+    out = []
+    for U in comps:
+        U = order_features(prof, U)
+        if U not in out and len(U) <= MAX_COMPONENT_FEATURES:
+            out.append(U)
+    return order_features(prof, cover), out
+
+
+def pad_universe(prof, U):
+    """Add a deprecated / version-1 / version-2.. feature where the universe has none (thorough tier: every
+    universe exercises deprecation and every version)."""
+    V = versioning()
+    U = list(U)
+    fv = lambda f: V.FEATURES_VERSIONS.get(f, (1, None))
+    wants = [lambda f: fv(f)[1] is not None] + [(lambda f, v=v: fv(f)[0] == v) for v in range(1, prof["latest"] + 1)]
+    for want in wants:
+        if not any(want(f) for f in U):
+            U += [f for f in prof["features"] if want(f) and f not in U][:1]
+    return order_features(prof, upgrade_closure(prof, U))
+
+
+def n_kinds(prof, U):
+    """number of well-formed kinds over U (version=None and every declared version)"""
+    return 2 ** len(U) + sum(2 ** sum(1 for f in U if prof["added"].get(f, 1) <= v) for v in range(1, prof["latest"] + 1))
+
+
+def check_upgrade_tables(ctx, name, U):
+    """T1 on the whole upgrade tables (ProblemKindLatticeUpgrade): UpgradeMonotone (both directions) on every
+    covering pair of kinds of one version, UpgradeWF on every kind, over the universe of all features the real
+    upgrade functions touch."""
+    if len(U) > MAX_COVER_FEATURES:
+        raise MachineryError("the upgrade functions touch %d features: more than the cover stage tabulates" % len(U))
+    d = ctx.sub(name)
+    tab = tables(U)
+    if not any(r != sorted(i + 1 for i in range(len(U)) if m >> i & 1) for row in tab["up"] for m, r in enumerate(row)):
+        raise MachineryError("cover universe %s: every upgrade function is the identity on it: vacuous" % name)
+    tpath = os.path.join(d, "tables.json")
+    tlc.write_json(tpath, tab)
+    cfgd = {"full": "FALSE"}
+    res = tlc.run_tlc("ProblemKindLatticeUpgrade", COVER_CFG % cfgd, os.path.join(d, "t1"), env={"TABLES": tpath}, timeout=3000)
+    if res.error:
+        raise MachineryError(res.error)
+    ctx.add_tlc("T1 %s (upgrade laws on covering pairs of kinds)" % name, res)
+    ctx.cov["evaluations"] += sum(len(r) for r in tab["up"])
+    expected = [p[1] for p in res.printed if isinstance(p, list) and len(p) == 2 and p[0] == "COVER"]
+    nav = [sum(1 for a in tab["added"] if a <= v) for v in range(1, tab["latest"])]
+    if not expected or expected[0] != 1 + sum(2 ** n + n * 2 ** n // 2 for n in nav):
+        raise MachineryError("cover stage: TLC counts %r cases for %r available features" % (expected, nav))
+    if res.violated:
+        tr = [s["vars"] for s in res.trace]
+        objs = tr[-1].get("objs", []) if tr else []
+        names = lambda k: {"version": k.get("dv"), "features": [U[i - 1] for i in sorted(k.get("f", {}).get("$set", []))]}
+        V = versioning()
+
+        def upgraded(k):  # witness data only: the real functions applied to the kind of the counterexample
+            out, F, v = {}, set(k["features"]), k["version"]
+            with time_limit(5):
+                while isinstance(v, int) and 1 <= v < tab["latest"]:
+                    F = V.upgrade_functions_map[(v, v + 1)](F)
+                    v += 1
+                    out["to version %d" % v] = sorted(F)
+            return out
+
+        kinds = [names(k) for k in objs if isinstance(k, dict) and isinstance(k.get("f"), dict)]
+        ctx.violation("T1|" + res.violated,
+                      "the upgrade functions of problem_kind_versioning violate %s (upgrading preserves <= / upgraded kinds "
+                      "are well formed) on two kinds of one version that differ in one feature" % res.violated,
+                      {"universe": U, "tables": {k: tab[k] for k in ("added", "depr", "latest")}, "kinds": kinds,
+                       "upgraded": [upgraded(k) for k in kinds], "trace": tr})
+    elif res.distinct != expected[0]:
+        raise MachineryError("cover stage visited %d states, expected %d" % (res.distinct, expected[0]))
+    return {"features": len(U), "states": res.distinct}
 
 
 class Recorder:
